@@ -24,10 +24,10 @@
 
   CONTINUED in Props/C14b.lean: the exact β tables after `insert_vertices_on_edge` and `insert_vertex_on_edge` (chain base → nd₁ → … → nd_k → old
   successor on both sides, reversed β2 pairing, every other image unchanged), the vertices of the new darts (pairwise
-  distinct), and `C14_new_vertex_position_full` (the position theorem without side hypothesis).
+  distinct), and `C14_new_vertex_position_full` (the position theorem without side hypothesis); in Props/C14c.lean: the
+  vertices of all old darts — the two end points included — keep their dart sets, identifiers and coordinates.
 
   NOT PROVED (validated on every case by the oracle of tools/props/c14.py)
-  * that the vertex orbits of the two end points keep their dart sets;
   * the `UndefinedEdge` error as an exact characterisation (needs totality of the vertex-id BFS on well-formed
     maps); the direction "Ok ⇒ both end points defined" is part of `C14_ok_implies_guards`.
   The freeness test is transactional since /repo cc2bcd4 (former finding D3 of C08): the kernels are plain
